@@ -1,6 +1,8 @@
 package transform
 
 import (
+	"fmt"
+	"math"
 	"strconv"
 	"strings"
 )
@@ -75,6 +77,26 @@ func VerifC10StrModel() {
 		for i := 0; i < len(h); i++ {
 			vAssert(h[i] != "", "no empty field")
 		}
+	case 4: // fmt.Sprintf with %d / %s / %v verbs renders like FormatInt and concatenation
+		a, b := vNondetInt64("a"), vNondetInt64("b")
+		t := strconv.FormatInt(b, 10)
+		s := fmt.Sprintf("%d/%v/%s|%d%%", a, b, t, int32(7))
+		vAssert(s == strconv.FormatInt(a, 10)+"/"+t+"/"+t+"|7%", "Sprintf of integers and strings")
+		f := strings.Split(s, "/")
+		vAssert(len(f) == 3 && f[0] == strconv.FormatInt(a, 10), "and it splits like any ID text")
+		vTraceStr("s", s)
+	case 5: // math.Trunc / math.Round / math.Min / math.Max
+		x, y := vNondetFloat64("x"), vNondetFloat64("y")
+		vAssume(-1e15 <= x && x <= 1e15 && -1e15 <= y && y <= 1e15)
+		t, r := math.Trunc(x), math.Round(x)
+		vAssert(math.Abs(t) <= math.Abs(x) && math.Abs(x)-math.Abs(t) < 1 && ((x >= 0 && t >= 0) || (x <= 0 && t <= 0)), "Trunc rounds toward zero")
+		vAssert(math.Abs(r-x) <= 0.5 && (math.Abs(r-x) < 0.5 || math.Abs(r) > math.Abs(x)), "Round rounds to nearest, halves away from zero")
+		vAssert(t == math.Floor(t) && r == math.Floor(r), "both are integers")
+		lo, hi := math.Min(x, y), math.Max(x, y)
+		vAssert(lo <= x && lo <= y && hi >= x && hi >= y && (lo == x || lo == y) && (hi == x || hi == y), "Min / Max select a bound")
+		vTraceFloat("t", t)
+		vTraceFloat("r", r)
+		vTraceFloat("lo", lo)
 	}
 	vReach("end")
 }
